@@ -89,6 +89,29 @@ theorem real_checker_covers_dest (t : List PreSym) (kinds : List EqKind) (b : Bo
   obtain ⟨k, da, hk, hda, hsub⟩ := acceptsEq_subset t kinds b e h
   exact ⟨k, da, hk, hda, fun p hp => subsetB_testBit hsub hp⟩
 
+/-- the type check is sound: when it passes, every property of every array has
+a recorded C type, and every array argument an element of which an equation or
+stepper uses as an index (subscript of another array, `range` bound, assigned to
+a local declared `int`/`long`/…) is known to the code generator as an integer
+pointer — an `int`/`unsigned int`/`long` property of some array of the problem
+and a `float`/`double` property of none -/
+theorem types_check_sound (kinds : List EqKind) (sk : List StepKind) (b : Body) :
+    typesOk kinds sk b = true → TypesOk kinds sk b :=
+  typesOk_sound kinds sk b
+
+/-- the index part of the check is exactly its specification (both directions) -/
+theorem index_types_check_exact (kinds : List EqKind) (sk : List StepKind) (b : Body) :
+    (subsetB (idxUsed kinds sk b) (intKnown b) &&
+      ((idxUsed kinds sk b &&& floatKnown b) == 0)) = true ↔
+    ∀ p, IndexUsed kinds sk b p → KnownIntegral b p :=
+  indexTypes_iff kinds sk b
+
+/-- a configuration where an index-used name is a `double` property of some
+array (the seeded `orig_idx` defect) or an integer property of none cannot pass -/
+theorem types_check_rejects_bad_index (kinds : List EqKind) (sk : List StepKind) (b : Body) (p : Nat)
+    (hu : IndexUsed kinds sk b p) (hbad : ¬ KnownIntegral b p) : typesOk kinds sk b = false :=
+  typesOk_false_of_bad_index kinds sk b p hu hbad
+
 /-! ## the generated table (kernel evaluation over the whole table) -/
 
 /-- every distinct outcome of running a configuration passes the completeness check -/
@@ -97,6 +120,10 @@ theorem bodies_checked : bodies.all (checkBody preTable eqKinds stepKinds) = tru
 
 /-- … and is accepted by the model of the real fail-fast checkers -/
 theorem bodies_accepted : bodies.all (acceptsBody preTable eqKinds stepKinds) = true := by
+  decide +kernel
+
+/-- … and passes the type check: index-used array arguments are integer properties -/
+theorem bodies_index_types_ok : bodies.all (typesOk eqKinds stepKinds) = true := by
   decide +kernel
 
 /-- every grid entry is `0` (rejected by the scheme) or names a body of the table -/
@@ -166,7 +193,39 @@ theorem all_configs_accepted :
   rw [← bodyOf_length hg] at hi
   exact point_of_runs _ bodies g bodies_accepted (hr g hg) i hi
 
+/-- **C12, generatable: index types.**  For every grid point the scheme either
+rejects the combination itself or, after `setup_properties`, every property has
+one C type and every array argument whose elements an equation or stepper uses as
+an index has an integer known type, so the generated Cython does not contain
+`int = double` or a `double` subscript. -/
+theorem all_configs_index_types_ok :
+    ∀ g ∈ schemeTable, ∀ i, i < gridSize g →
+      PointTypesOk eqKinds stepKinds bodies g i := by
+  intro g hg i hi
+  have hr := entries_in_range
+  simp only [List.all_eq_true] at hr
+  rw [← bodyOf_length hg] at hi
+  obtain ⟨c, hc, h⟩ := point_of_runs _ bodies g bodies_index_types_ok (hr g hg) i hi
+  refine ⟨c, hc, ?_⟩
+  rcases h with h0 | ⟨b, hb, hchk⟩
+  · left; exact h0
+  · right; exact ⟨b, hb, typesOk_sound _ _ b hchk⟩
+
 /-! ## non-vacuity -/
+
+/-- the type theorem is not vacuous: some configuration does use an array
+element as an index … -/
+example : ∃ b ∈ bodies, idxUsed eqKinds stepKinds b ≠ 0 := by
+  decide +kernel
+
+/-- … and the check discriminates: move every integer property of such a
+configuration to `double` and it fails -/
+example : ((bodies.find? (fun b => idxUsed eqKinds stepKinds b != 0)).map (fun b =>
+    typesOk eqKinds stepKinds { b with types := b.types.map (fun t =>
+      { t with int := 0, uint := 0, long := 0,
+               double := t.double ||| t.int ||| t.uint ||| t.long }) }))
+    = some false := by
+  decide +kernel
 
 /-- the table is not empty and its bodies are not trivial -/
 example : ∃ g ∈ schemeTable, g.name = "WCSPHScheme" ∧ 1000 < gridSize g := by
